@@ -21,8 +21,9 @@ int main(int argc, char** argv) {
     ECP U(cc); U.addPrimitive(nraw, 0, zeta, 1.0, false);
     std::vector<Triple> tr = {Triple{N, l1, l2}};
     int nbase = std::max(0, N + l1 - 1);
+    int defer = 0;
     auto run = [&](bool notail, bool forceq, bool noscreen, double& val, long& closed, long& tailfired, int& taillast) {
-      verif::Ctl& c = verif::ctl(); c = verif::Ctl(); c.no_tail_cut = notail; c.force_quadrature = forceq; c.no_screen = noscreen;
+      verif::Ctl& c = verif::ctl(); c = verif::Ctl(); c.no_tail_cut = notail; c.force_quadrature = forceq; c.no_screen = noscreen; c.quad_defer = defer;
       ThreeIndex<double> rad(N + 1, l1 + 1, l2 + 1); rad.fill(0.0);
       R.type2(tr, nbase, 0, U, shA, shB, A, B, rad);
       val = rad(N, l1, l2); closed = c.closed_form; tailfired = c.tail_fired; taillast = c.tail_last_index;
@@ -34,11 +35,15 @@ int main(int argc, char** argv) {
     run(false, false, true, vns, cx, tx, ix);      // primitive estimate screen disabled
     run(true, false, true, vnsnt, cx, tx, ix);     // both
     run(true, true, true, vq, cx, tx, ix);         // quadrature forced, nothing screened or cut
+    double vd2, vd4;
+    defer = 2; run(true, false, true, vd2, cx, tx, ix);   // nothing screened or cut, the first two acceptances of the adaptive quadrature deferred
+    defer = 4; run(true, false, true, vd4, cx, tx, ix);   // ... the first four
+    defer = 0;
     std::fprintf(f, "case %s\nint N %d\nint l1 %d\nint l2 %d\nint nraw %d\nint closed %ld\nint tailfired %ld\nint taillast %d\n", id.c_str(), N, l1, l2, nraw, c0, t0, i0);
     // leaves for the numeric model of the closed-form path: the Dawson function at the two arguments the source forms
     { double p = zeta + a + b, x = a * A, y = b * B, P1 = (x + y) / p, P2 = (y - x) / p, rp = std::sqrt(p);
       std::fprintf(f, "mat daw 1 4 %a %a %a %a\nint nbase %d\n", rp * P1, rp * P2, Faddeeva::Dawson(rp * P1), Faddeeva::Dawson(rp * P2), nbase); }
-    std::fprintf(f, "mat prm 1 5 %a %a %a %a %a\nmat val 1 5 %a %a %a %a %a\nend\n", zeta, a, b, A, B, v0, vnt, vns, vnsnt, vq);
+    std::fprintf(f, "mat prm 1 5 %a %a %a %a %a\nmat val 1 7 %a %a %a %a %a %a %a\nend\n", zeta, a, b, A, B, v0, vnt, vns, vnsnt, vq, vd2, vd4);
   }
   std::fclose(f); return 0;
 }
